@@ -1713,6 +1713,16 @@ func resolveIndex(v, index reflect.Value, indexAsStr string) (reflect.Value, err
 		// Slow path: use reflect directly
 		tField, ok := typ.FieldByName(key)
 		if ok {
+			for i, embedded := 0, v; i < len(tField.Index)-1; i++ {
+				// FieldByIndex panics when the field is promoted through a nil embedded pointer
+				embedded = embedded.Field(tField.Index[i])
+				if embedded.Kind() == reflect.Ptr {
+					if embedded.IsNil() {
+						return reflect.Value{}, fmt.Errorf("nil pointer evaluating %s.%s (embedded %s is nil)", v.Type(), indexAsStr, embedded.Type())
+					}
+					embedded = embedded.Elem()
+				}
+			}
 			field := v.FieldByIndex(tField.Index)
 			if tField.PkgPath != "" { // field is unexported
 				return reflect.Value{}, fmt.Errorf("%s is an unexported field of struct type %s", indexAsStr, v.Type())
